@@ -1,5 +1,6 @@
 import TD.C11.Model
 import TD.C15.Props
+import TD.C04.SliceNeg
 import Mathlib.Tactic.Linarith
 import Mathlib.Tactic.Ring
 
@@ -54,5 +55,15 @@ theorem convRowsSlice_eq (start stop step : Option Int) (n : Nat) (hst : 0 < ste
   rw [pyBound_some_of_range s 0 n hs.1 hs.2]
   have h1 : st * (e / st) - 1 + 1 = st * (e / st) := by ring
   rw [h1, pyBound_some_of_range _ _ n hB0 (by omega)]
+
+/-- `Slice.last()` for a negative step (the clamped stop is at most `n - 1`, so the first branch is never taken). -/
+theorem sliceLast_neg (start stop step : Option Int) (n : Nat) (hst : step.getD 1 < 0) :
+    sliceLast start stop step n =
+      .ok (step.getD 1 * Int.fdiv (TD.C04.pyBoundNeg stop (-1) n) (step.getD 1) - 1) := by
+  unfold sliceLast
+  rw [TD.C04.slice_adjust_neg _ _ _ _ hst]
+  have he : ¬ ((n : Int) < TD.C04.pyBoundNeg stop (-1) n) := by
+    unfold TD.C04.pyBoundNeg; cases stop <;> simp <;> omega
+  simp only [he, if_false]
 
 end TD.C11
